@@ -194,6 +194,18 @@ class C14(Prop):
         # empty message
         mk("empty", [w(b""), "wready", vw(b""), "cycle"])
         mk("bytes-hi-cr", [w(bytes([0xff, 0xfa, 0x0d, 0x0a, 0x0d, 0x80, 0x0a])), vw(bytes([0xff, 0x0d, 0x0a]))])
+        # kinds of user: telnet negotiation at connect (partial / refused / failing sends), console write(2) path
+        mk("telnet-connect", ["connect telnet", w(b"hi\n")])
+        mk("telnet-connect-partial", ["sendres 5,W", "connect telnet", w(b"hi\n"), "wready"])
+        mk("telnet-connect-epipe", ["sendres 3,P", "connect telnet", w(b"lost\n")])
+        mk("telnet-connect-eintr", ["sendres I", "connect telnet", "cycle"])
+        mk("console-basic", ["connect console", w(b"hello\n"), vw(b"v\n")])
+        mk("console-partial", ["connect console", "sendres 1,W,2,I", w(b"hello\n"), "cycle", "wready", "wready"])
+        mk("console-full-refused", ["connect console", "sendres W,W,W", w(filler(N + 100)), "wready"])
+        mk("console-long", ["connect console", "sendres 1000,7,W", w(filler(3 * N, 5)), "wready"])
+        mk("console-epipe", ["connect console", "sendres P", w(b"x\n"), w(b"y\n"), "close"])
+        mk("console-close-pending", ["connect console", "sendres W", w(b"abc\n"), "sendres 2", "close", w(b"z")])
+        mk("ascii-explicit", ["connect ascii", w(b"a\n")])
         return B
 
     # ---- random ---------------------------------------------------------------
@@ -249,6 +261,11 @@ class C14(Prop):
     def gen_case(self, rng, cid):
         body = []
         offset = 0
+        kind = rng.weighted([("ascii", 5), ("telnet", 3), ("console", 3), (None, 2)])
+        if kind:
+            if rng.chance(1, 3):
+                body.append("sendres " + ",".join(self.gen_tok(rng, 0) for _ in range(rng.range(1, 3))))
+            body.append("connect " + kind)
         if rng.chance(1, 2):
             offset = rng.range(1, N - 1)
             body += [w(filler(offset, rng.below(1000))), "flush"]
@@ -258,6 +275,8 @@ class C14(Prop):
                 break           # after the connection went away only a few more ops are interesting
             k = rng.weighted([("write", 10), ("vwrite", 3), ("sendres", 8), ("flush", 4), ("cycle", 3), ("wready", 4),
                               ("close", 1), ("peerfin", 1), ("peerclose", 1), ("dump", 1)])
+            if kind == "console" and k in ("peerfin", "peerclose"):
+                k = "close"     # the console has no peer socket
             if k in ("write", "vwrite"):
                 body.append("%s %s" % (k, hx(self.gen_msg(rng, self.gen_len(rng)))))
             elif k == "sendres":
